@@ -476,3 +476,139 @@ class HTTPProxy:
             data += b"Content-Length: 0\r\n"
         data += b"\r\n"
         return {"data": data, "ok": ok, "close": self.close_on_refusal and not ok}
+
+
+# ------------------------------------------------------------------ SOCKS5 proxy (RFC 1928 / 1929), byte level
+
+
+class Socks5Conn(Peer):
+    """States: greeting -> [auth] -> request -> tunnel | failed."""
+
+    def __init__(self, proxy):
+        self.proxy = proxy
+        self.buf = bytearray()
+        self.state = "greeting"
+        self.inner = None
+        self.offered_methods = None
+        self.userpass = None
+        self.request = None           # (cmd, atyp, addr, port)
+        self.errors: list[str] = []
+        self.pre_tunnel = bytearray()
+        self.in_tunnel = bytearray()
+        self.early_bytes = 0          # bytes that arrived before the negotiation step they belong to was answered
+        self.tr = None
+
+    def on_connect(self, tr):
+        self.tr = tr
+        self.proxy.conns.append(self)
+
+    def on_tls(self, tr, sni, alpn_offered):
+        if self.inner is not None:
+            return self.inner.on_tls(tr, sni, alpn_offered)
+        self.errors.append("TLS started with the SOCKS proxy itself before the tunnel exists")
+        return None
+
+    def on_data(self, tr, data):
+        if self.state == "tunnel":
+            self.in_tunnel += data
+            self.inner.on_data(tr, data)
+            return
+        self.pre_tunnel += data
+        self.buf += data
+        if self.state == "failed":
+            return
+        p = self.proxy
+        if self.state == "greeting":
+            if len(self.buf) < 2 or len(self.buf) < 2 + self.buf[1]:
+                return
+            if self.buf[0] != 5:
+                self.errors.append(f"greeting version {self.buf[0]}")
+            n = self.buf[1]
+            self.offered_methods = list(self.buf[2:2 + n])
+            del self.buf[:2 + n]
+            tr.send(p.method_reply)
+            if p.method_reply[1:2] == b"\x02":
+                self.state = "auth"
+            elif p.method_reply[1:2] == b"\x00":
+                self.state = "request"
+            else:
+                self.state = "failed"
+            if self.buf:
+                self.early_bytes += len(self.buf)
+        if self.state == "auth":
+            if len(self.buf) < 2:
+                return
+            ul = self.buf[1]
+            if len(self.buf) < 3 + ul:
+                return
+            pl = self.buf[2 + ul]
+            if len(self.buf) < 3 + ul + pl:
+                return
+            if self.buf[0] != 1:
+                self.errors.append(f"auth version {self.buf[0]}")
+            self.userpass = (bytes(self.buf[2:2 + ul]), bytes(self.buf[3 + ul:3 + ul + pl]))
+            del self.buf[:3 + ul + pl]
+            tr.send(p.auth_reply)
+            self.state = "request" if p.auth_reply[1:2] == b"\x00" else "failed"
+            if self.buf:
+                self.early_bytes += len(self.buf)
+        if self.state == "request":
+            if len(self.buf) < 5:
+                return
+            ver, cmd, rsv, atyp = self.buf[0], self.buf[1], self.buf[2], self.buf[3]
+            if atyp == 1:
+                need = 4 + 4 + 2
+            elif atyp == 4:
+                need = 4 + 16 + 2
+            elif atyp == 3:
+                need = 4 + 1 + self.buf[4] + 2
+            else:
+                self.errors.append(f"bad atyp {atyp}")
+                self.state = "failed"
+                return
+            if len(self.buf) < need:
+                return
+            if ver != 5 or rsv != 0:
+                self.errors.append(f"request ver={ver} rsv={rsv}")
+            if atyp == 3:
+                addr = bytes(self.buf[5:5 + self.buf[4]])
+            else:
+                addr = bytes(self.buf[4:need - 2])
+            port = int.from_bytes(self.buf[need - 2:need], "big")
+            self.request = (cmd, atyp, addr, port)
+            del self.buf[:need]
+            tr.send(p.connect_reply)
+            if p.connect_reply[1:2] == b"\x00" and len(p.connect_reply) >= 10:
+                host = addr.decode("latin1") if atyp == 3 else ".".join(str(b) for b in addr) if atyp == 1 else addr.hex()
+                self.inner = p.router("socks-tunnel", host, port)
+                self.inner.on_connect(tr)
+                self.state = "tunnel"
+                if self.buf:
+                    self.early_bytes += len(self.buf)
+                    rest = bytes(self.buf)
+                    del self.buf[:]
+                    self.in_tunnel += rest
+                    self.inner.on_data(tr, rest)
+            else:
+                self.state = "failed"
+
+    def on_client_read(self, tr, n):
+        if self.inner is not None:
+            self.inner.on_client_read(tr, n)
+
+    def on_client_close(self, tr):
+        if self.inner is not None:
+            self.inner.on_client_close(tr)
+
+
+class Socks5Proxy:
+    def __init__(self, router, method_reply=b"\x05\x00", auth_reply=b"\x01\x00",
+                 connect_reply=b"\x05\x00\x00\x01\x7f\x00\x00\x01\x04\x38"):
+        self.router = router
+        self.method_reply = method_reply
+        self.auth_reply = auth_reply
+        self.connect_reply = connect_reply
+        self.conns: list[Socks5Conn] = []
+
+    def new_conn(self):
+        return Socks5Conn(self)
